@@ -168,6 +168,15 @@ func c14Rules(tier string) []Rule {
 		IMPL{ID: "C14.IMPL3", Fn: "life.KnownEphemeralTaintsRemoved", Lit: `+^scheduling\.IsKnownEphemeralTaint\(`, Not: core.RetTrue},
 		MPT{ID: "C14.MPT4", Fn: "life.KnownEphemeralTaintsRemoved", Ret: core.RetTrue, Gates: gates(
 			G(`-^\(phi\(.*\) \+ 1\) < len\(\$0\.Spec\.Taints\)$`))},
+		// what "ephemeral taint" means: a taint that matches a known one by key and effect (MatchTaint — the node
+		// lifecycle controller stamps TimeAdded, values differ) or carries a known key prefix
+		IMPL{ID: "C14.IMPL5", Fn: "scheduling.IsKnownEphemeralTaint", Lit: `+^\(\*corev1\.Taint\)\.MatchTaint\(scheduling\.KnownEphemeralTaints\[.*\], \$0\)$`, Not: core.RetFalse},
+		IMPL{ID: "C14.IMPL6", Fn: "scheduling.IsKnownEphemeralTaint", Lit: `+^strings\.HasPrefix\(\$0\.Key, scheduling\.KnownEphemeralTaintKeyPrefixes\[.*\]\)$`, Not: core.RetFalse},
+		ITER{ID: "C14.ITER1", Fn: "scheduling.IsKnownEphemeralTaint", Loop: `+^\(phi\(-1\|\(phi↺ \+ 1\)\) \+ 1\) < len\(scheduling\.KnownEphemeralTaints\)$`, Gates: gates(
+			G(`-^\(\*corev1\.Taint\)\.MatchTaint\(scheduling\.KnownEphemeralTaints\[.*\], \$0\)$`))},
+		MPT{ID: "C14.MPT6", Fn: "scheduling.IsKnownEphemeralTaint", Ret: core.RetFalse, Gates: gates(
+			G(`+^\$0 == nil$`, `-^\(phi\(-1\|\(phi↺ \+ 1\)\) \+ 1\) < len\(scheduling\.KnownEphemeralTaints\)$`),
+			G(`+^\$0 == nil$`, `-^\(phi\(-1\|\(phi↺ \+ 1\)\) \+ 1\) < len\(scheduling\.KnownEphemeralTaintKeyPrefixes\)$`))},
 		IMPL{ID: "C14.IMPL4", Fn: "life.RequestedResourcesRegistered", Lit: `+^utils/resources\.IsZero\(\$0\.Status\.Allocatable\[next\(range\(\$1\.Spec\.Resources\.Requests\)\)#1\]\)$`, Not: core.RetTrue},
 		MPT{ID: "C14.MPT5", Fn: "life.RequestedResourcesRegistered", Ret: core.RetTrue, Gates: gates(
 			G(`-^next\(range\(\$1\.Spec\.Resources\.Requests\)\)#0$`))},
